@@ -422,6 +422,10 @@ class Unsupported(Exception):
     pass
 
 
+def _irrefutable(p):
+    return p["k"] == "Wild" or (p["k"] == "Bind" and p.get("sub") is None)
+
+
 class Evaluator:
     """Abstract evaluation of small pure THIR bodies."""
 
@@ -432,6 +436,20 @@ class Evaluator:
         self.notes = []
         # called for self-field reads on non-wire objects: (adt, field) -> value or None
         self.field_hook = None
+        # {(root, bit): 0 | 1}: evaluate under the assumption that these input bits have these values
+        self.assume = {}
+        # opt-in: integer fields of opaque (Sym) objects evaluate to named bit vectors instead of opaque scalars
+        self.bitfields = False
+
+    def _inp(self, root, lo, w):
+        b = Bits.inp(root, lo, w)
+        if self.assume:
+            b = Bits(w, [self.assume.get(x, x) if isinstance(x, tuple) else x for x in b.b])
+        return b
+
+    def assume_bits(self, root, lo, w, value):
+        for i in range(w):
+            self.assume[(root, lo + i)] = (value >> i) & 1
 
     def tb(self, path):
         t = self.tbs.get(path)
@@ -732,7 +750,7 @@ class Evaluator:
                     c = Cond("true")
                     for s in pat.get("subs", []):
                         fv = v.fields.get(s["f"]) if s["f"] in v.fields else v.fields.get(str(s["idx"]))
-                        if fv is not None and s["p"]["k"] not in ("Bind", "Wild"):
+                        if fv is not None and not _irrefutable(s["p"]):
                             c = self.logic("and", c, self.pat_cond(s["p"], fv, env)[0])
                     return c, binds
                 return Cond("false"), binds
@@ -741,13 +759,18 @@ class Evaluator:
             for s in pat.get("subs", []):
                 pv = Sym("payload(%s,%s)" % (vkey(v), name if s.get("f") in ("0", "", None) else "%s.%s" % (name, s["f"])))
                 self.bind(s["p"], pv, binds)
-                if s["p"]["k"] not in ("Bind", "Wild"):
+                if not _irrefutable(s["p"]):
                     sc, sb = self.pat_cond(s["p"], pv, env)
                     if not (isinstance(sc, Cond) and sc.op == "true"):
                         c = self.logic("and", c, sc)
             return c, binds
         if k == "Bind":
             self.bind(pat, v, binds)
+            if pat.get("sub") is not None:
+                # `name @ sub-pattern`: the binding is irrefutable, the sub-pattern decides
+                sc, sb = self.pat_cond(pat["sub"], v, env)
+                binds.update(sb)
+                return sc, binds
             return Cond("true"), binds
         if k == "Wild":
             return Cond("true"), binds
@@ -848,7 +871,7 @@ class Evaluator:
             fadt = fd["ty"].get("adt")
             w = INT_W.get(fd["ty"]["s"])
             if w and off is not None:
-                return Bits.inp(base.root, 8 * (base.off + off), w)
+                return self._inp(base.root, 8 * (base.off + off), w)
             if fadt and off is not None and fadt in self.f.adts and not fd["ty"].get("refs"):
                 return Obj(base.root, base.off + off, fadt)
             return Sym("field(%r,%s)" % (base, name))
@@ -865,12 +888,16 @@ class Evaluator:
             if r is not None:
                 return r
         if isinstance(base, Sym):
+            w = INT_W.get(ty) if isinstance(ty, str) else None
+            if self.bitfields and w and w > 1:
+                # integer field of an opaque object as a vector of named bits: masks and shifts are then compared bit by bit
+                return Bits.inp("%s.%s" % (base.d, name), 0, w)
             return Sym("%s.%s" % (base.d, name))
         return Sym("field(%s,%s)" % (vkey(base), name))
 
     def index(self, base, idx, ty):
         if isinstance(base, Slice) and isinstance(idx, Bits) and idx.is_const():
-            return Bits.inp(base.root, 8 * (base.off + idx.value()), 8)
+            return self._inp(base.root, 8 * (base.off + idx.value()), 8)
         if isinstance(base, Slice) and isinstance(idx, Agg):
             r = self.range_of(idx)
             if r:
@@ -1009,7 +1036,7 @@ class Evaluator:
         if "byteorder::LittleEndian" in fn or fn.startswith("byteorder::ByteOrder::read_") or "ByteOrder>::read_" in (res or ""):
             w = {"read_u16": 16, "read_u32": 32, "read_u64": 64}.get(name)
             if w and isinstance(args[0], Slice):
-                return Bits.inp(args[0].root, 8 * args[0].off, w)
+                return self._inp(args[0].root, 8 * args[0].off, w)
         if name == "from_le_bytes" and args and isinstance(args[0], tuple) and args[0] and args[0][0] == "array":
             bs = args[0][1:]
             if all(isinstance(x, Bits) and x.w == 8 for x in bs):
